@@ -97,7 +97,7 @@ class FeeField(DataflowTransactionContext):
 
     @staticmethod
     def _get_asserted_max_value(
-        comparison_ins: "Instruction", compared_value: FeeValue
+        comparison_ins: "Instruction", compared_value: FeeValue, field_is_first: bool = True
     ) -> Tuple[FeeValue, FeeValue]:
         """Return maximum possible value that will make the comparison True and maximum
         possible value that will make the comparison False. Both values are upper bounded
@@ -106,30 +106,37 @@ class FeeField(DataflowTransactionContext):
         Args:
             comparison_ins: Comparison operator.
             compared_value: fee value being compared with.
+            field_is_first: True if the fee is the first operand (`fee < value`), False if it is
+                the second operand (`value < fee`, which is `fee > value`).
 
         Returns:
             Max possible value that will make the comparison instruction return True and
                 Max possible value that will make the comparison False.
         """
         # U = max_possible_value  # universal set
+        less, less_e, greater, greater_e = Less, LessE, Greater, GreaterE
+        if not field_is_first:
+            # `value OP fee` is the same as `fee MIRRORED_OP value`
+            less, less_e, greater, greater_e = Greater, GreaterE, Less, LessE
+
         if isinstance(comparison_ins, Eq):
             # x == i => i, U
             return compared_value, FeeValue()
         if isinstance(comparison_ins, Neq):
             # x != i => U, i
             return FeeValue(), compared_value
-        if isinstance(comparison_ins, Less):
+        if isinstance(comparison_ins, less):
             # x < i => (i - 1), U
             if compared_value.is_unknown:
                 return compared_value, FeeValue()
             return FeeValue(value=max(0, compared_value.value - 1)), FeeValue()
-        if isinstance(comparison_ins, LessE):
+        if isinstance(comparison_ins, less_e):
             # x <= i => i, U
             return compared_value, FeeValue()
-        if isinstance(comparison_ins, Greater):
+        if isinstance(comparison_ins, greater):
             # x > i => U, i
             return FeeValue(), compared_value
-        if isinstance(comparison_ins, GreaterE):
+        if isinstance(comparison_ins, greater_e):
             # x >= i => U, (i - 1)
             if compared_value.is_unknown:
                 return FeeValue(), compared_value
@@ -144,6 +151,7 @@ class FeeField(DataflowTransactionContext):
             arg1 = ins_stack_value.args[0]
             arg2 = ins_stack_value.args[1]
             compared_value: Optional[FeeValue] = None
+            field_is_first = True
 
             if isinstance(arg1, UnknownStackValue) and isinstance(arg2, UnknownStackValue):
                 # Both the args are unknown
@@ -156,6 +164,7 @@ class FeeField(DataflowTransactionContext):
                     return FeeValue(), FeeValue()
                 # arg2 is related to key and arg1 is some unknown value
                 compared_value = FeeValue(is_unknown=True)
+                field_is_first = False
             elif isinstance(arg2, UnknownStackValue):
                 if not isinstance(arg1, UnknownStackValue) and not is_value_matches_key(key, arg1):
                     # arg2 is unknown and arg1 is not related to "key"
@@ -170,6 +179,7 @@ class FeeField(DataflowTransactionContext):
                     compared_value = FeeValue(is_unknown=True)
 
             elif is_value_matches_key(key, arg2):
+                field_is_first = False
                 is_int, value = is_int_push_ins(arg1.instruction)
                 if is_int and isinstance(value, int):
                     compared_value = FeeValue(value=value)
@@ -181,7 +191,7 @@ class FeeField(DataflowTransactionContext):
                 return FeeValue(), FeeValue()
 
             ins = ins_stack_value.instruction
-            return self._get_asserted_max_value(ins, compared_value)
+            return self._get_asserted_max_value(ins, compared_value, field_is_first)
         return FeeValue(), FeeValue()
 
     def _get_asserted_single(
